@@ -379,7 +379,8 @@ def build_replay(release=False):
     key = "release" if release else "dev"
     if key in _replay_built:
         return _replay_built[key]
-    crate = os.path.join(VERIF, "replay")
+    from . import kani as _k
+    crate = _k.crate_for_repo(os.path.join(VERIF, "replay"), "replay")
     tgt = os.path.join(WORK, "replay-target")
     cmd = ["cargo", "build", "--offline", "--target-dir", tgt] + (["--release"] if release else [])
     p = subprocess.run(cmd, cwd=crate, env=ENV, stdout=subprocess.PIPE, stderr=subprocess.STDOUT, text=True)
@@ -760,7 +761,7 @@ def run_c07_full(prop, mir, log, tier):
         for pr in nat["programs"]:
             rc, rf = rec_peaks(pr["tree"])
             validated += 1
-            ok = (pr["max_cells"] - pr["io_cells"] <= rc <= pr["extra_cells"] and
+            ok = (not pr.get("panicked") and pr["max_cells"] - pr["io_cells"] <= rc <= pr["extra_cells"] and
                   max(0, pr["max_frames"] - pr["io_frames"]) <= rf <= pr["extra_frames"] and
                   (not pr["tight"] or (pr["max_cells"] - pr["io_cells"] == rc)))
             if not ok:
@@ -814,6 +815,29 @@ def run_c07_full(prop, mir, log, tier):
     return exit_code, cov
 
 
+def replay_c07_family(mode, log, bad):
+    """run a family of concrete programs natively (dev and release): reproduced if any program
+    panics, is accepted although its bound is saturated, or uses more than its static bound"""
+    hits = []
+    for prof in ("dev", "release"):
+        exe = build_replay(release=(prof == "release"))
+        p = subprocess.run([exe, mode], stdout=subprocess.PIPE, stderr=subprocess.PIPE, text=True, timeout=900,
+                           env=dict(os.environ, RUST_BACKTRACE="0"))
+        if p.returncode != 0:
+            hits.append("%s: family run died: %s" % (prof, " ".join(p.stderr.split())[:200]))
+            continue
+        try:
+            progs = json.loads(p.stdout)["programs"]
+        except Exception:
+            hits.append("%s: unreadable output" % prof)
+            continue
+        for j in progs:
+            if bad(j):
+                hits.append("%s: %s" % (prof, json.dumps(j)[:220]))
+    log("  native replay (%s family): %s" % (mode, "; ".join(hits[:3]) if hits else "all programs within their bounds / refused"))
+    return True if hits else "no program of the native family violates the property"
+
+
 def load_known(prop):
     p = os.path.join(VERIF, "known_findings.json")
     if not os.path.exists(p):
@@ -824,7 +848,14 @@ def load_known(prop):
 def replay_c07(nm, model, log):
     """native reproduction of a bounds-arithmetic counterexample: a program family whose
     middle type has width >= 2^64 (saturated) realises the overflowing inputs"""
+    if nm.startswith("L3"):
+        return replay_c07_family("limits_family", log,
+                                 lambda j: (not j.get("refused", False)) or j.get("panicked_before_exec", False))
     m = re.match(r"^L2\.(\w+) ", nm)
+    if m and "covers the interpreter" in nm:
+        # a bound that does not cover the run: look for it on the concrete program family
+        return replay_c07_family("peaks", log, lambda j: j.get("panicked") or (j["max_cells"] - j["io_cells"] > j["extra_cells"])
+                                 or (max(0, j["max_frames"] - j["io_frames"]) > j["extra_frames"]))
     if not m or m.group(1) not in ("comp", "disconnect"):
         return "no native program family for %s" % nm
     res = {}
